@@ -32,6 +32,9 @@ MODE_STMT = {"normal": "pass", "closeOut": "sys.stdout.close()", "exc": "raise V
              "x:unicode": "'\\ud800'.encode('utf-8')", "x:memory": "raise MemoryError", "x:notimpl": "raise NotImplementedError",
              "x:warn": "raise Warning('w')", "x:stopasync": "raise StopAsyncIteration", "x:argsnonstr": "raise ValueError(1, [2], {3: 4})",
              "x:tuplekey": "raise KeyError(('a', 1))",
+             # exception classes that resist being inspected or annotated
+             "x:noSetattr": "raise NoSetattr('x')", "x:noGetattr": "raise NoGetattr('x')", "x:slots": "raise Slotted('x')",
+             "x:argsProp": "raise ArgsProp('x')", "x:keySub": "raise KeySub('k')",
              "x:chained": (["try:", "    1 / 0", "except ZeroDivisionError as e:", "    raise ValueError('second') from e"], 3),
              "x:ctxchained": (["try:", "    1 / 0", "except ZeroDivisionError:", "    undefined_name_q"], 3),
              # failures inside a second student file reached through import (nested entry point Sandbox._import)
@@ -55,13 +58,14 @@ MODE_CLASS = {"exc": "ValueError", "excBrokenStr": "BrokenStr", "excBrokenRepr":
               "x:indent": "IndentationError", "x:noname": "", "x:lowername": "oops", "x:group": "ExceptionGroup",
               "x:unicode": "UnicodeEncodeError", "x:memory": "MemoryError", "x:notimpl": "NotImplementedError",
               "x:warn": "Warning", "x:stopasync": "StopAsyncIteration", "x:argsnonstr": "ValueError", "x:tuplekey": "KeyError",
+              "x:noSetattr": "NoSetattr", "x:noGetattr": "NoGetattr", "x:slots": "Slotted", "x:argsProp": "ArgsProp", "x:keySub": ("KeySub", "KeyError"),
               "x:chained": "ValueError", "x:ctxchained": "NameError", "x:importRaises": "ValueError", "x:importExit": "SystemExit",
               "x:importFnRaises": "KeyError", "x:fromImport": "KeyError", "x:importCustomInit": "TwoArgs", "x:importUse": "KeyError"}
 # modes whose failure is raised on the student's own line (location is checked only for these)
 STUDENT_LINE = {"exc", "excBrokenStr", "excBrokenRepr", "raiseSysExit", "sysexit", "x:keyBare", "x:key", "x:zero",
                 "x:name", "x:type", "x:index", "x:attr", "x:assert", "x:bareexc", "x:args2", "x:custominit",
                 "x:oserror", "reraise", "nested", "x:noname", "x:lowername", "x:group", "x:unicode", "x:memory", "x:notimpl",
-                "x:warn", "x:stopasync", "x:argsnonstr", "x:tuplekey", "x:chained", "x:ctxchained", "x:syntaxBare"}
+                "x:warn", "x:stopasync", "x:argsnonstr", "x:tuplekey", "x:noSetattr", "x:noGetattr", "x:slots", "x:argsProp", "x:keySub", "x:chained", "x:ctxchained", "x:syntaxBare"}
 PRELUDE = """import sys
 ask = input
 class BrokenStr(Exception):
@@ -71,6 +75,20 @@ class BrokenRepr(Exception):
     def __repr__(self):
         raise RuntimeError('no repr for you')
 class MyBase(BaseException):
+    pass
+class NoSetattr(Exception):
+    def __setattr__(self, name, value):
+        raise RuntimeError('hands off')
+class NoGetattr(Exception):
+    def __getattribute__(self, name):
+        raise RuntimeError('eyes off')
+class Slotted(Exception):
+    __slots__ = ()
+class ArgsProp(Exception):
+    @property
+    def args(self):
+        raise RuntimeError('no args')
+class KeySub(KeyError):
     pass
 class FaultMarker(Exception):
     pass
